@@ -20,7 +20,7 @@ RUNS = {"quick": 16, "thorough": 300}
 TOL = 1e-12
 GRIDS = ("uniform", "rect_uniform", "quasi")
 RULE = (
-    "seeded random scenes with even cell counts 4-8 per axis (QuasiUniformGrid requires even counts), spacing s drawn from 20-80 nm "
+    "seeded random scenes with even cell counts 4-6 per axis (up to 10 with PML) (QuasiUniformGrid requires even counts), spacing s drawn from 20-80 nm "
     "(multiples of 0.1 nm, sometimes with a sub-1e-14 m remainder), per-face boundaries from periodic / Bloch pairs / PEC / PMC / none / PML 2-3, "
     "per-cell random material tensors (iso / diagonal / full, optional conductivities), 1-2 sources (dipoles, at most one uniform/Gaussian plane "
     "source), 1-3 detectors of all four kinds with and without co-location, random initial field in half of the runs; each scene is built on the "
@@ -43,7 +43,7 @@ LEVEL_NOTE = "float64, XLA CPU single thread; the oracle is the same code reache
 def generate(rng, tier, index):
     units = int(rng.integers(200, 801)) * 10_000  # multiples of 0.1 nm in units of 1e-14 m
     s = (units + (0.25 if rng.uniform() < 0.25 else 0.0)) * 1e-14
-    spec = rp.rand_scene(rng, T=(5, 10), shape=(4, 8), even=True, pml=(2, 3), bloch_p=0.2, p_nonuniform=0.0, n_sources=(1, 2), max_plane=1, spacing=float(s))
+    spec = rp.rand_scene(rng, T=(5, 10), shape=(4, 6), even=True, pml=(2, 3), bloch_p=0.2, p_nonuniform=0.0, n_sources=(1, 2), max_plane=1, spacing=float(s))
     T = spec["steps"]
     spec["init_seed"] = int(rng.integers(0, 2**31)) if rng.uniform() < 0.5 else None
     spec["loop"] = {"replica": int(rng.integers(0, 3)), "cut": int(rng.integers(1, T)) if rng.uniform() < 0.7 else None}
